@@ -47,7 +47,9 @@ RULE = ("(A) per-site obligations: every cache site discovered in the imported l
         "equal instants with different UTC offsets (datetime, time, pendulum); 1 / 1.0 / True / Decimal(1) / Fraction(1) / IntEnum; "
         "annotations built twice, both member orders of unions (typing, PEP 604, Optional, nested in builtin and typing generics), "
         "Literal member orders - as 2-call histories [f(ki), f(kj)] for every ordered pair (including i = j: two equal objects) and "
-        "call-mutate-call histories [r = f(k); deep-mutate r; f(k)], each in a fresh fork, against f(kj) alone in a fresh fork; "
+        "call-mutate-call histories [r = f(k); deep-mutate r; f(k)], each in a fresh fork, against f(kj) alone in a fresh fork "
+        "(quick tier: the calls of one key group share their forks - every call on ki, then every call on kj - and a difference is "
+        "re-run as the 2-call history; thorough tier: one call per fork); "
         "results returned twice are checked for identity / shared mutable substructure. (B) seeded histories (quick: <= 12 ops) over "
         "small synthesised programs: build marshaller/unmarshaller/codec, marshal, unmarshal, typelib.encode, typelib.decode, "
         "deep-mutate an earlier result, deep-mutate an earlier input, read an earlier result back, clear every cache "
@@ -853,6 +855,23 @@ def _internal_child(_job):
     got.clear()
     after = describe(_probe_routine(typelib.unmarshaller(U)))
     out["static_order_direct_mutation_changes_routines"] = after != cold_probe
+    # string references: the routine caches are keyed by the bare string, refs._resolve_module_name by (string, None),
+    # but what the string names depends on the caller's frame
+    import types
+    src = ("import dataclasses, typelib\n@dataclasses.dataclass\nclass Node:\n    {f}: int\n"
+           "def um(v):\n    return typelib.unmarshal('Node', v)\n")
+    mods = []
+    for name, f in (("c12_ref_a", "a"), ("c12_ref_b", "b")):
+        m = types.ModuleType(name)
+        sys.modules[name] = m
+        exec(compile(src.format(f=f), name, "exec"), m.__dict__)
+        mods.append(m)
+    clear_all_caches()
+    try:
+        first, second = mods[0].um({"a": 1, "b": 2}), mods[1].um({"a": 1, "b": 2})
+        out["string_reference_served_by_first_caller"] = type(second) is type(first)
+    except Exception as e:  # noqa: BLE001
+        out["string_reference_served_by_first_caller"] = f"{type(e).__name__}"
     return out
 
 
@@ -1596,6 +1615,10 @@ def explore(ctx):
     res.count("outside-property:graph.static_order-returns-its-cached-list:" + str(internal.get("static_order_returns_cached_list")))
     res.count("outside-property:clearing-that-list-changes-later-routines:"
               + str(internal.get("static_order_direct_mutation_changes_routines")))
+    # string references are resolved through the caller's stack frame (refs._resolve_module_name): what a bare string names
+    # is not a function of the string; outside the universe of the property, recorded
+    res.count("outside-property:unmarshal('Node')-from-a-second-module-gets-the-first-module's-class:"
+              + str(internal.get("string_reference_served_by_first_caller")))
     check_histories(ctx, res)
     res.extra["distinct_nontrivial"] = len(res.keys)
     res.extra["exhaustive"] = False
